@@ -34,13 +34,13 @@ ASSUMPTIONS = [
     "bound methods are equal iff they wrap the same function (the library's documented intent for method-valued attributes)",
     "exact truth value of == between an instance and an instance of a sub/superclass is not judged (only symmetry and transitivity)",
 ]
-KINDS = ["int", "str", "list", "leaf", "method", "func", "cls", "mod", "any", "masked", "speccls", "ownrepr", "boundfn", "nan"]
-ANN = {"int": "int", "str": "str", "list": "List[int]", "leaf": "Leaf", "method": "Callable", "func": "Callable", "cls": "type", "mod": "Any", "any": "Any", "masked": "Callable", "speccls": "type", "ownrepr": "OwnRepr", "boundfn": "Callable", "nan": "float"}
+KINDS = ["int", "str", "list", "leaf", "method", "func", "cls", "mod", "any", "masked", "speccls", "ownrepr", "boundfn", "nan", "extbound", "nameless"]
+ANN = {"int": "int", "str": "str", "list": "List[int]", "leaf": "Leaf", "method": "Callable", "func": "Callable", "cls": "type", "mod": "Any", "any": "Any", "masked": "Callable", "speccls": "type", "ownrepr": "OwnRepr", "boundfn": "Callable", "nan": "float", "extbound": "Callable", "nameless": "Callable"}
 
 
 def GATES(tier):
     return [("comparisons_judged", 2000), ("one_off_pairs", 300), ("triples_checked", 200), ("copies_checked", 100), ("reprs_checked", 300),
-            ("repr_self_reference", 10), ("repr_indented", 10), ("method_before_difference", 20), ("subclass_pairs", 50), ("subclass_triples", 200), ("reflexive_checked", 200), ("self_referential_copies", 10), ("repr_keyed_child_missing_key", 10)] + [(f"diff_kind:{k}", 5) for k in KINDS]
+            ("repr_self_reference", 10), ("repr_indented", 10), ("method_before_difference", 20), ("subclass_pairs", 50), ("subclass_triples", 200), ("reflexive_checked", 200), ("self_referential_copies", 10), ("self_referential_copies_compared", 10), ("repr_keyed_child_missing_key", 10)] + [(f"diff_kind:{k}", 5) for k in KINDS]
 
 
 SRC_HEAD = '''
@@ -57,6 +57,27 @@ NAN = float("nan")  # one object: identical values are equal, as for the element
 def detached_a(self): return "detached a"
 detached_a.__name__ = "helper"  # same name as a method of the class, different function
 def detached_b(self): return "detached b"  # a name the class does not have
+
+class Target:  # a plain value object with a method: two targets with the same n are equal, their bound methods are not identical
+    def __init__(self, n):
+        self.n = n
+    def __eq__(self, other):
+        return isinstance(other, Target) and other.n == self.n
+    __hash__ = None
+    def __repr__(self):
+        return f"Target({self.n})"
+    def hit(self):
+        return self.n
+
+class Nameless:  # a callable without __name__ (like functools.partial); atomic under deepcopy, as functions are
+    def __init__(self, tag):
+        self.tag = tag
+    def __call__(self, receiver):
+        return self.tag
+    def __deepcopy__(self, memo):
+        return self
+
+NAMELESS = [Nameless(0), Nameless(1)]
 
 @spec_class(bootstrap=True)
 class Leaf:
@@ -120,6 +141,12 @@ def value(ns, kind, which, inst):
         import types
 
         return types.MethodType([ns["detached_a"], ns["detached_b"]][which], inst)
+    if kind == "extbound":  # a method of some *other* object: equal only if the receivers are (a fresh, equal receiver per call)
+        return ns["Target"](which + 1).hit
+    if kind == "nameless":  # a bound method whose callable has no __name__
+        import types
+
+        return types.MethodType(ns["NAMELESS"][which], inst)
     if kind == "ownrepr":
         return ns["OwnRepr"](v=which + 1)
     if kind == "nan":
@@ -141,13 +168,16 @@ def build(ns, cname, kinds, choice):
     return inst
 
 
-def ref_equal_values(va, vb):
+def ref_equal_values(va, vb, oa=None, ob=None):
     import inspect
 
     if va is vb:
         return True  # identical values are equal (as for the elements of builtin containers), NaN included
     if inspect.ismethod(va) and inspect.ismethod(vb):
-        return va.__func__ is vb.__func__
+        # the same function, bound to receivers that stand for each other: each operand's own method, or equal receivers
+        if va.__func__ is not vb.__func__:
+            return False
+        return (va.__self__ is oa and vb.__self__ is ob) or va.__self__ is vb.__self__ or va.__self__ == vb.__self__
     return va == vb
 
 
@@ -309,7 +339,7 @@ def run(ctx, params):
                 report("eq_symmetric_across_classes", f"{type(xa).__name__} == {type(xb).__name__} -> {r1} but reversed -> {r2}")
             across[(ia, ib)] = across[(ib, ia)] = bool(r1)
             if type(xa) is type(xb):
-                same = all(ref_equal_values(xa.__dict__.get(k, cg), xb.__dict__.get(k, cg)) for k in set(xa.__dict__) | set(xb.__dict__)
+                same = all(ref_equal_values(xa.__dict__.get(k, cg), xb.__dict__.get(k, cg), xa, xb) for k in set(xa.__dict__) | set(xb.__dict__)
                            if not k.startswith("a") or flags[int(k[1:])][0])
                 if bool(r1) is not same:
                     report("eq_pairs", f"two {type(xa).__name__} instances: == -> {r1}, reference says {same}", expected=same, diff_kinds=["subclass_attr"])
@@ -370,6 +400,10 @@ def run(ctx, params):
                         report("deepcopy_equal", f"deepcopy of a {label} instance does not reproduce the self reference", label=label)
                     elif not (y == y):
                         report("eq_reflexive", f"the deepcopy of a {label} instance is not equal to itself", label=label)
+                    elif not (y == x and x == y):
+                        report("deepcopy_equal", f"deepcopy(x) != x for a {label} instance", label=label)
+                    else:
+                        ctx.count("self_referential_copies_compared")
                 except BaseException as e:  # noqa
                     report("deepcopy_equal", f"deepcopy / == of a {label} instance raised {type(e).__name__}: {str(e)[:80]}", label=label)
             # a keyed nested spec instance whose key is missing (rendered compactly as a child, and inside containers)
